@@ -1,4 +1,4 @@
-import PymocaVerif.Lemmas.SimplifyAliasElim
+import PymocaVerif.Lemmas.SimplifyAliasCount
 /-!
 # C15 — simplification keeps regular systems square and self-contained
 
@@ -52,10 +52,38 @@ theorem balance_step {E : Engine K} (o : Opts) (p : Pass) (hp : p ≠ .alias) {m
 example : ∃ m', Pass.run c15E c15O .elim c15M = .ok m' ∧ (names c15M.algs).Nodup ∧
     nUnknowns m' = 2 ∧ m'.eqs.length = 2 := ⟨_, rfl, by decide, by decide, by decide⟩
 
-/-- `balance_step` for the alias detection, partial: it keeps the balance if the alias relation
-    eliminates exactly one algebraic variable for every equation the detection loop dropped.
-    Missing: that this counting property follows from the signed-union-find invariant of the alias
-    relation for every run in which `_make_alias` only joins unrelated variables. -/
+/-- `_make_alias` only ever calls `AliasRelation.add` on two variables that are not yet related (with
+    either sign), so every call joins two classes, keeps the invariant `WF` of the relation (shared class
+    lists closed under negation, one recorded canonical member per class, `canonical_variables` = the
+    canonical names) and makes exactly one more name non-canonical.  This is where the two former
+    defects C14-F1/F2 lived; the guard of commit 494f047 is what makes the hypothesis-free statement true. -/
+theorem make_alias_joins_classes {cx : AliasCtx} {s s' : AR} {d0 d1 : String} {neg : Bool}
+    (hw : WF s) (hj : JInv cx s) (h : makeAlias cx s d0 d1 neg = some (s', true)) :
+    WF s' ∧ JInv cx s' ∧ elimCount s' = elimCount s + 1 := by
+  rcases makeAlias_facts h with ⟨_, hf⟩ | ⟨_, alg, other, hf⟩
+  · simp at hf
+  · exact jinv_add hw hj hf
+
+example : makeAlias ⟨[], [], ["x", "y"], [], [], [], true⟩ AR.empty "x" "y" true ≠ none ∧ WF AR.empty := by
+  refine ⟨by decide, wf_empty⟩
+
+/-- `balance_step` for the alias detection (first pass: the model's alias relation is still empty):
+    every alias equation that is dropped goes together with exactly one algebraic variable that is
+    eliminated — unconditionally, for every equation list, every observation of CasADi and every
+    option.  Variable names are distinct (one Python dict `all_states`). -/
+theorem balance_step_alias {E : Engine K} {allowDer : Bool} {m m' : Model K} (hempty : m.ar = AR.empty)
+    (hnd : (names m.states ++ names m.ders ++ names m.algs ++ names m.inputs ++ names m.params ++ names m.consts).Nodup)
+    (h : detectAliases E allowDer m = .ok m') : Balanced m m' := alias_balanced_first hempty hnd h
+
+example : ∃ m', detectAliases c15E true
+      ({ algs := [{ name := "x" }, { name := "y" }, { name := "z" }],
+         eqs := [.bin .sub (.sym "x") (.sym "y"), .bin .add (.sym "y") (.sym "z"), .bin .sub (.sym "z") (.const 2)] } : Model Rat)
+      = .ok m' ∧ nUnknowns m' = 1 ∧ m'.eqs.length = 1 := ⟨_, rfl, by decide, by decide⟩
+
+/-- `balance_step` for a later alias detection pass (iterative simplification), partial: it keeps the
+    balance if the alias relation eliminates exactly one algebraic variable for every equation the
+    detection loop dropped.  Missing: the counting argument of `balance_step_alias` relative to a
+    non-empty `old_alias_relation` (the "already handled" filter). -/
 theorem balance_step_alias_partial {E : Engine K} {allowDer : Bool} {m m' : Model K}
     (h : detectAliases E allowDer m = .ok m')
     (hnd : (names m.states ++ names m.ders ++ names m.algs ++ names m.inputs ++ names m.params ++ names m.consts).Nodup)
@@ -100,9 +128,19 @@ theorem closed_step {I : Interp K} {E : Engine K} (hE : EngineOk I E) (o : Opts)
 
 example : EngineOk c15I c15E ∧ Closed c15M ∧ ClosedPre c15E c15O .pvalues c15M := ⟨c15E_ok, c15M_closed, trivial⟩
 
-/-- `closed_step` for the alias detection, partial: the result is self-contained if no canonical
-    variable of the alias relation is itself eliminated.  Missing: that this follows from the class
-    structure of the alias relation. -/
+/-- `closed_step` for the alias detection (first pass): no canonical variable is eliminated, so the
+    substituted equations, initial equations and delay arguments only mention remaining variables. -/
+theorem closed_step_alias {I : Interp K} {E : Engine K} (hE : EngineOk I E) {allowDer : Bool} {m m' : Model K}
+    (hempty : m.ar = AR.empty) (hc : Closed m)
+    (hnd : (names m.states ++ names m.ders ++ names m.algs ++ names m.inputs ++ names m.params ++ names m.consts).Nodup)
+    (h : detectAliases E allowDer m = .ok m') : Closed m' := alias_closed_first hE hempty hc hnd h
+
+example : (names c15M.states ++ names c15M.ders ++ names c15M.algs ++ names c15M.inputs ++ names c15M.params ++ names c15M.consts).Nodup ∧
+    c15M.ar = AR.empty := ⟨by decide, rfl⟩
+
+/-- `closed_step` for a later alias detection pass, partial: the result is self-contained if no
+    canonical variable of the alias relation is itself eliminated.  Missing: the class-structure
+    argument of `closed_step_alias` relative to a non-empty `old_alias_relation`. -/
 theorem closed_step_alias_partial {I : Interp K} {E : Engine K} (hE : EngineOk I E) {allowDer : Bool} {m m' : Model K}
     (h : detectAliases E allowDer m = .ok m') (hc : Closed m)
     (hnd : (names m.states ++ names m.ders ++ names m.algs ++ names m.inputs ++ names m.params ++ names m.consts).Nodup)
@@ -113,6 +151,52 @@ theorem closed_step_alias_partial {I : Interp K} {E : Engine K} (hE : EngineOk I
         (names m.states ++ names m.ders ++ names m.algs ++ names m.inputs ++ names m.params ++ names m.consts) = .ok (l, left) →
       ∀ c ∈ ar.cv, c ∉ l.map (·.1)) :
     Closed m' := alias_closed_of_kept hE h hc hnd hkept
+
+/-! ### one whole `_simplify_once` -/
+
+/-- what each enabled pass needs from the model it receives, along one run -/
+def RunPre15 (E : Pass → Engine K) (o : Opts) : List Pass → Model K → Prop
+  | [], _ => True
+  | p :: ps, m =>
+    if p.enabled o then
+      ((names m.algs).Nodup ∧ ClosedPre (E p) o p m ∧
+        (p = .alias → m.ar = AR.empty ∧
+          (names m.states ++ names m.ders ++ names m.algs ++ names m.inputs ++ names m.params ++ names m.consts).Nodup)) ∧
+      ∀ m', Pass.run (E p) o p m = .ok m' → RunPre15 E o ps m'
+    else RunPre15 E o ps m
+
+/-- `balance_pipeline` / `closed_residual`: for every option set, a `_simplify_once` that returns leaves
+    `#unknowns - #equations` unchanged and a self-contained model self-contained (so all residual
+    functions can be built) — by induction over the pass list. -/
+theorem simplify_once_square_and_closed {I : Interp K} {E : Pass → Engine K} (hE : ∀ p, EngineOk I (E p)) (o : Opts) :
+    ∀ (ps : List Pass) (m m' : Model K), RunPre15 E o ps m → Closed m → runPasses E o ps m = .ok m' →
+      Balanced m m' ∧ Closed m'
+  | [], m, m', _, hc, h => by simp [runPasses] at h; subst h; exact ⟨Balanced.refl m, hc⟩
+  | p :: ps, m, m', hpre, hc, h => by
+    simp only [runPasses] at h
+    simp only [RunPre15] at hpre
+    split at h
+    · rename_i hen
+      simp only [hen, if_true] at hpre
+      split at h
+      · simp at h
+      · rename_i m1 h1
+        obtain ⟨⟨hnd, hcp, hal⟩, hrest⟩ := hpre
+        have step : Balanced m m1 ∧ Closed m1 := by
+          by_cases hp : p = .alias
+          · subst hp
+            obtain ⟨hemp, hnames⟩ := hal rfl
+            simp only [Pass.run] at h1
+            exact ⟨balance_step_alias hemp hnames h1, closed_step_alias (hE _) hemp hc hnames h1⟩
+          · exact ⟨balance_step o p hp hnd h1, closed_step (hE p) o p hp hcp hc h1⟩
+        have ih := simplify_once_square_and_closed hE o ps m1 m' (hrest m1 h1) step.2 h
+        exact ⟨Balanced.trans step.1 ih.1, ih.2⟩
+    · rename_i hen
+      simp only [hen] at hpre
+      exact simplify_once_square_and_closed hE o ps m m' (by simpa using hpre) hc h
+
+example : ∃ m', runPasses (fun _ => c15E) c15O Pass.order c15M = .ok m' ∧ nUnknowns m' = 2 ∧ m'.eqs.length = 2 ∧
+    m'.dangling = [] := ⟨_, rfl, by decide, by decide, by decide⟩
 
 /-- `closed_residual`, executable form: the list of dangling symbols the driver reports for a model
     is empty exactly when the model is self-contained. -/
